@@ -237,7 +237,16 @@ type resolverQuery struct {
 	debugMeta *DebugMeta
 	debugLogs *debugLogs
 	kind      ast.ImportKind
+
+	// This counts nested "browser" map remappings (see "resolveWithoutRemapping")
+	browserRemapDepth uint8
 }
+
+// A "browser" map entry can remap a path to a package path that the same map
+// then remaps again (e.g. {"./sub": "pkg/sub"} inside the package "pkg"). Stop
+// following such a chain after this many steps instead of recursing until the
+// stack overflows, which would crash the whole process.
+const maxBrowserRemapDepth = 32
 
 func NewResolver(call config.APICall, fs fs.FS, log logger.Log, caches *cache.CacheSet, options *config.Options) *Resolver {
 	// Filter out non-CSS extensions for CSS "@import" imports
@@ -1082,6 +1091,16 @@ func (r resolverQuery) resolveWithoutSymlinks(sourceDir string, sourceDirInfo *d
 }
 
 func (r resolverQuery) resolveWithoutRemapping(sourceDirInfo *dirInfo, importPath string) (PathPair, bool, *fs.DifferentCase, *SideEffectsData) {
+	// Guard against cycles in "browser" maps. The receiver is a copy, so the
+	// incremented depth is only seen by the nested calls made below.
+	if r.browserRemapDepth >= maxBrowserRemapDepth {
+		if r.debugLogs != nil {
+			r.debugLogs.addNote(fmt.Sprintf("Giving up on the remapped path %q because too many \"browser\" map entries were followed", importPath))
+		}
+		return PathPair{}, false, nil, nil
+	}
+	r.browserRemapDepth++
+
 	if IsPackagePath(importPath) {
 		return r.loadNodeModules(importPath, sourceDirInfo, false /* forbidImports */)
 	} else {
